@@ -386,6 +386,8 @@ func runC15(r *Run) {
 	}
 
 	// sibling clauses decided by the same rule code as C14 and C02
+	r.Rule("R7", "see C12 R5 (same rule code): every module account of maccPerms is a blocked address — the distribution, staking-pool and gov accounts cannot receive plain transfers, which their invariants (module balance = recorded amounts) need")
+	checkBlockedAddrs(r, "R7", "distribution")
 	r.Import("R4/C14.", []string{"R2"}, runC14)
 	r.Import("R5/C02.", []string{"R3"}, runC02)
 }
